@@ -229,7 +229,30 @@ class Path:
 # ---------------------------------------------------------------------------------
 # solver
 
-RLIMIT_PER_MS = 10000      # z3 resource units per "millisecond" of nominal budget (largest discharged obligation on the unchanged tree uses ~3e7)
+def _symbols(formulas):
+    """names of the uninterpreted function symbols (arity > 0) occurring in the formulas"""
+    out = set()
+    seen = set()
+    todo = list(formulas)
+    while todo:
+        e = todo.pop()
+        if e.get_id() in seen:
+            continue
+        seen.add(e.get_id())
+        if z3.is_quantifier(e):
+            todo.append(e.body())
+            for i in range(e.num_patterns()):
+                todo.append(e.pattern(i))
+            continue
+        if z3.is_app(e):
+            d = e.decl()
+            if d.kind() == z3.Z3_OP_UNINTERPRETED and d.arity() > 0:
+                out.add(d.name())
+            todo.extend(e.children())
+    return out
+
+
+RLIMIT_PER_MS = 4000      # z3 resource units per "millisecond" of nominal budget (largest discharged obligation on the unchanged tree uses ~3e7)
 
 
 class Prover:
@@ -240,6 +263,8 @@ class Prover:
         self.timeout_ms = timeout_ms
         self.expander = expander      # expands lazy fact schemas at query time
         self.max_rlimit = 0
+        self._trig = {}
+        self._ment = {}
         self.feasible_axioms = True   # confirm infeasibility with the quantified axioms (slower, fewer paths)
         self.time = 0.0
         self.queries = 0
@@ -247,18 +272,51 @@ class Prover:
     def _solver(self, timeout_ms, pc, extra, axioms=True):
         s = z3.Solver()
         s.set("timeout", timeout_ms)
-        for a in (self.axioms if axioms else []):
-            s.add(a)
         plain = [f for f in pc if z3.is_expr(f)]
         lazy = [f for f in pc if not z3.is_expr(f)]
-        for f in plain:
-            s.add(f)
-        for f in extra:
-            s.add(f)
+        body = list(plain) + list(extra)
         if self.expander is not None:
-            for f in self.expander(plain + list(extra), lazy):
-                s.add(f)
+            body += list(self.expander(plain + list(extra), lazy))
+        if axioms and self.axioms:
+            # only the axioms about function symbols that occur in the query (fixed point over the
+            # symbols the selected axioms mention themselves)
+            syms = _symbols(body)
+            chosen = []
+            pending = list(self.axioms)
+            changed = True
+            while changed:
+                changed = False
+                rest = []
+                for a in pending:
+                    trig = self._triggers(a)
+                    if not trig or trig & syms:
+                        chosen.append(a)
+                        syms |= self._mentions(a)
+                        changed = True
+                    else:
+                        rest.append(a)
+                pending = rest
+            for a in chosen:
+                s.add(a)
+        for f in body:
+            s.add(f)
         return s
+
+    def _triggers(self, a):
+        """uninterpreted function symbols in the patterns of a quantified axiom (empty: always include)"""
+        k = a.get_id()
+        if k not in self._trig:
+            t = set()
+            if z3.is_quantifier(a):
+                for i in range(a.num_patterns()):
+                    t |= _symbols([a.pattern(i)])
+            self._trig[k] = t
+            self._ment[k] = _symbols([a.body()]) if z3.is_quantifier(a) else _symbols([a])
+        return self._trig[k]
+
+    def _mentions(self, a):
+        self._triggers(a)
+        return self._ment[a.get_id()]
 
     def feasible(self, pc, extra=None, timeout_ms=1500):
         # quantifier-free over-approximation first (fast); axioms only to confirm infeasibility
@@ -1219,15 +1277,20 @@ class FuncVC:
             ex.oblige(f"{self.qual}:{kind}:only-when", z3.Or(*ws) if len(ws) > 1 else ws[0])
         else:
             ex.oblige(f"{self.qual}:{kind}:exit-permitted", True)
+        conforming = {}
+        if kind == "return":
+            for e, w in live:
+                conforming[id(e)] = e.value is not None or bool(self.theory.result_conforms(ex, e.res, res))
+            if not any(conforming.values()):
+                ex.oblige(f"{self.qual}:return:result-kind", False)
+                return
         for e, w in live:
             guard = (lambda f: f) if isinstance(w, bool) else (lambda f, w=w: z3.Implies(w, f))
             r = res
             if kind == "return" and e.value is None:
-                ok = self.theory.result_conforms(ex, e.res, res)
-                if not ok:
-                    if isinstance(w, bool):
-                        ex.oblige(f"{self.qual}:{e.name}:result-kind", False)
-                    else:
+                if not conforming[id(e)]:
+                    # another permitted exit matches the kind of value returned; this one must not apply
+                    if not isinstance(w, bool):
                         ex.oblige(f"{self.qual}:{e.name}:result-kind", z3.Not(w))
                     continue
                 ex.oblige(f"{self.qual}:{e.name}:result-kind", True)
